@@ -127,6 +127,19 @@ func judgeC11(rec *stats.Rec, c c11Case) (string, string) {
 	return apiGuard(func() (string, string) { return judgeC11Inner(rec, c) })
 }
 
+// sameLengthTwin flips a boolean option of the document into a document of equal length (true <-> fals, padded).
+func sameLengthTwin(doc string) string {
+	switch {
+	case strings.Contains(doc, "= true\n"):
+		return strings.Replace(doc, "= true\n", "=false\n", 1)
+	case strings.Contains(doc, "= false\n"):
+		return strings.Replace(doc, "= false\n", "=  true\n", 1)
+	case strings.Contains(doc, "Rounds = 0\n"):
+		return strings.Replace(doc, "Rounds = 0\n", "Rounds = 9\n", 1)
+	}
+	return ""
+}
+
 // judgeLoaders: the document means the same from a string, a reader and a file.
 func judgeLoaders(rec *stats.Rec, c c11Case) (string, string) {
 	tdir, err := os.MkdirTemp("", "verif-c11-")
@@ -137,6 +150,16 @@ func judgeLoaders(rec *stats.Rec, c c11Case) (string, string) {
 	fp := filepath.Join(tdir, "config.toml")
 	if os.WriteFile(fp, []byte(c.TOML), 0o644) != nil {
 		return "", ""
+	}
+	// the path has a history: an earlier document of the same length, same modification time, other meaning
+	if prev := sameLengthTwin(c.TOML); prev != "" {
+		if os.WriteFile(fp, []byte(prev), 0o644) == nil {
+			if st, err := os.Stat(fp); err == nil {
+				_, _ = lint.NewConfigFromFile(fp)
+				_ = os.WriteFile(fp, []byte(c.TOML), 0o644)
+				_ = os.Chtimes(fp, st.ModTime(), st.ModTime())
+			}
+		}
 	}
 	cs, e1 := lint.NewConfigFromString(c.TOML)
 	cf, e2 := lint.NewConfigFromFile(fp)
